@@ -101,40 +101,61 @@ abbrev Inv := Nat × Verdict      -- one receiver-filter invocation: (index, ver
 abbrev SInv := Nat × FStatus
 
 /-- the `for ; d.receiverFiltersIndex < len(d.receiverFilters); d.receiverFiltersIndex++` loop over the filters from the
-cursor on; `idx` is the loop variable (= the cursor field in Go), the list is `receiverFilters[idx:]`. -/
-def recvLoop (p : RPhase) : List RFilter → Nat → FState → List Inv → FState × List Inv
-  | [], _, s, acc => ({ s with cursor := 0 }, acc)
-  | f :: rest, idx, s, acc =>
-    if f.phase ≠ p then recvLoop p rest (idx + 1) s acc
+cursor on; `idx` is the loop variable (= the cursor field in Go), the list is `receiverFilters[idx:]`.
+Returns the state after the loop and the invocations made, in order. -/
+def recvLoop (p : RPhase) : List RFilter → Nat → FState → FState × List Inv
+  | [], _, s => ({ s with cursor := 0 }, [])
+  | f :: rest, idx, s =>
+    if f.phase ≠ p then recvLoop p rest (idx + 1) s
     else
       let v := f.verdictAt (s.rcalls idx)
       let s := { s with rcalls := bump s.rcalls idx }
       let s := applyAct s v.act                                  -- filter.OnReceive
       let s := applyHandler (receiverHandler v.status) p s       -- statusHandler(phase, filterStatus)
-      let acc := acc ++ [(idx, v)]
       match recvSwitch v.status with
-      | .next => recvLoop p rest (idx + 1) s acc
-      | .resetReturn => ({ s with cursor := 0 }, acc)
-      | .keepReturn => ({ s with cursor := idx }, acc)
+      | .next => let (s', l) := recvLoop p rest (idx + 1) s; (s', (idx, v) :: l)
+      | .resetReturn => ({ s with cursor := 0 }, [(idx, v)])
+      | .keepReturn => ({ s with cursor := idx }, [(idx, v)])
 
 /-- RunReceiverFilter(phase): state after, invocations made -/
 def runRecv (chain : List RFilter) (p : RPhase) (s : FState) : FState × List Inv :=
-  recvLoop p (chain.drop s.cursor) s.cursor s []
+  recvLoop p (chain.drop s.cursor) s.cursor s
 
-def sendLoop : List SFilter → Nat → FState → List SInv → FState × List SInv
-  | [], _, s, acc => ({ s with scursor := 0 }, acc)
-  | f :: rest, idx, s, acc =>
+def sendLoop : List SFilter → Nat → FState → FState × List SInv
+  | [], _, s => ({ s with scursor := 0 }, [])
+  | f :: rest, idx, s =>
     let st := f.statusAt (s.scalls idx)
     let s := { s with scalls := bump s.scalls idx }
     let s := applyHandler (senderHandler st) .BeforeRoute s      -- senderFilterStatusHandler (phase is not consulted)
-    let acc := acc ++ [(idx, st)]
     match sendSwitch st with
-    | .next => sendLoop rest (idx + 1) s acc
-    | .resetReturn => ({ s with scursor := 0 }, acc)
-    | .keepReturn => ({ s with scursor := idx }, acc)
+    | .next => let (s', l) := sendLoop rest (idx + 1) s; (s', (idx, st) :: l)
+    | .resetReturn => ({ s with scursor := 0 }, [(idx, st)])
+    | .keepReturn => ({ s with scursor := idx }, [(idx, st)])
 
 /-- RunSenderFilter(BeforeSend): every sender filter is registered at the only sender phase -/
 def runSend (chain : List SFilter) (s : FState) : FState × List SInv :=
-  sendLoop (chain.drop s.scursor) s.scursor s []
+  sendLoop (chain.drop s.scursor) s.scursor s
+
+/-! ### vocabulary of the theorems -/
+
+/-- invocation indices strictly increasing and all ≥ `lb` -/
+def ascFrom : Nat → List Inv → Prop
+  | _, [] => True
+  | lb, iv :: r => lb ≤ iv.1 ∧ ascFrom (iv.1 + 1) r
+
+def sascFrom : Nat → List SInv → Prop
+  | _, [] => True
+  | lb, iv :: r => lb ≤ iv.1 ∧ sascFrom (iv.1 + 1) r
+
+/-- the status asks for a re-run of an earlier phase (re-match-route / re-choose-host) -/
+def asksAgain (st : FStatus) : Prop := st = .ReMatchRoute ∨ st = .ReChooseHost
+
+instance : DecidablePred asksAgain := fun st => by unfold asksAgain; infer_instance
+
+/-- where the cursor stands after a pass: at the last invoked filter if it asked for a re-run, else 0 -/
+def cursorAfter (invs : List Inv) : Nat :=
+  match invs.getLast? with
+  | some iv => if asksAgain iv.2.status then iv.1 else 0
+  | none => 0
 
 end MosnVerif.Model.FilterChain
